@@ -363,6 +363,12 @@ func c18Scripted(c *core.Ctx, id string, mode mon.Mode, q, entry int, stim strin
 	}
 	// 1) first payload -> sender starts, drains it, parks at the gate holding a batch of one
 	r0, ret, _ := call(bg, 0, false)
+	if !ret && mon.ParkedInAll([]string{"(*channel).async", "(*channel).writeOnce"}) > 0 {
+		// the writer's own goroutine is inside the sender loop (held at the harness's gate between draining and writing):
+		// the call does not return although the queue is empty - it will be busy for as long as the transport is
+		viol("write-call-runs-the-sender-itself", "a write on an empty queue did not return: its goroutine is parked inside writeOnce (the background sender's loop), so the call lasts as long as the transport takes and ignores its context")
+		return
+	}
 	if !ret || r0.err != nil {
 		c.Inconclusive(id, fmt.Sprintf("first write did not succeed: ret=%v err=%v", ret, r0.err))
 		return
